@@ -17,7 +17,7 @@ def plan(ctx):
         unit = k * WB[be]
         obs.append(leak(enc_ob(be, k, m, hd, 2, unit + 1), "leak"))
         obs.append(leak(enc_ob(be, k, m, hd, 1, 0), "leak"))
-    for be, k, m, hd in [(RS, 2, 1, 1), (RS, 2, 2, 2), (ISAV, 2, 1, 1)]:
+    for be, k, m, hd in [(RS, 2, 1, 1), (ISAV, 2, 1, 1)] + ([(RS, 2, 2, 2)] if thorough else []):
         n = k + m
         obs.append(leak(l2_ob(be, k, m, hd, list(range(1, n))), "leak"))                       # decode via back end
         obs.append(leak(l2_ob(be, k, m, hd, list(range(n))[::-1], ct=2, force=1), "leak"))       # fast path with checks
@@ -26,8 +26,8 @@ def plan(ctx):
         # documented errors: insufficient fragments, bad header, foreign fragment under forced checks
         obs.append(leak(l2_ob(be, k, m, hd, [n - 1], expect=(-1 if k > 1 else 1)), "leak"))
         obs.append(leak(l2_ob(be, k, m, hd, [n - 1] * (k + 1), expect=(-1 if k > 1 else 1)), "leak"))
-        obs.append(leak(l2_ob(be, k, m, hd, list(range(1, n)), force=1, ct=2, hdrdmg=(0, 1), uf=True, expect=(-1 if n - 2 < k else 0)), "leak"))
-        obs.append(leak(l2_ob(be, k, m, hd, list(range(1, n)), mode=2, dest=0, hdrdmg=(0, 0), uf=True, expect=-1), "leak"))
+        obs.append(leak(l2_ob(be, k, m, hd, list(range(1, n)), force=1, ct=2, hdrdmg=(0, 1, 9), uf=True, expect=(-1 if n - 2 < k else 0)), "leak"))
+        obs.append(leak(l2_ob(be, k, m, hd, list(range(1, n)), mode=2, dest=0, hdrdmg=(0, 0, 77), uf=True, expect=-1), "leak"))
     # invalid arguments and failing back-end operations carry the leak check in their own plans (C13, C17); a few are repeated here
     from props.c13 import plan as p13
     from props.c17 import plan as p17
